@@ -225,6 +225,69 @@ theorem concurrency_bounded (n : Nat) (evs : List Ev) (hf : FreshRun (init n) ev
   have := (inv_run evs (init n) (inv_init n) hf).bounded
   rwa [run_semSize] at this
 
+/-- `NewJob` is refused exactly when its context has a cause, and that cause is
+the first of `Done` / a job's error: a refused `NewJob` reports a job error only
+if that job failed. -/
+def NjOk (w : W) : Prop :=
+  (w.njCause = none ↔ (w.cause = none ∧ w.done = false)) ∧
+  (∀ e, w.njCause = some (some e) → w.cause.isSome = true)
+
+theorem njok_step (w : W) (e : Ev) (h : NjOk w) : NjOk (step w e).1 := by
+  obtain ⟨h1, h2⟩ := h
+  cases e with
+  | newJob j =>
+    simp only [step]
+    split
+    · exact ⟨h1, h2⟩
+    · split <;> exact ⟨h1, h2⟩
+  | wait =>
+    simp only [step]
+    split
+    · exact ⟨h1, h2⟩
+    · split <;> exact ⟨h1, h2⟩
+  | done =>
+    simp only [step, NjOk]
+    cases hn : w.njCause with
+    | none => simp
+    | some c =>
+      simp
+      intro e he; exact h2 e (by rw [hn, he])
+  | finish j err =>
+    simp only [step]
+    split
+    · simp only [NjOk]
+      cases hn : w.njCause with
+      | some c =>
+        have : ¬ (w.cause = none ∧ w.done = false) := fun hc => by rw [h1.mpr hc] at hn; cases hn
+        constructor
+        · simp
+          intro hc
+          cases hcc : w.cause with
+          | some x => simp [hcc] at hc
+          | none =>
+            simp [hcc] at hc
+            cases hd : w.done with
+            | true => rfl
+            | false => exact absurd ⟨hcc, hd⟩ this
+        · intro e he
+          have := h2 e (by rw [hn]; exact he)
+          cases hcc : w.cause with
+          | some x => simp
+          | none => simp [hcc] at this
+      | none =>
+        have hc := h1.mp hn
+        cases err with
+        | none => simp [hc.1, hc.2]
+        | some x => simp [hc.1]
+    · exact ⟨h1, h2⟩
+
+theorem njok_run (n : Nat) (evs : List Ev) : NjOk (run (init n) evs) := by
+  have : ∀ (w : W), NjOk w → NjOk (run w evs) := by
+    induction evs with
+    | nil => intro w h; exact h
+    | cons e r ih => intro w h; exact ih _ (njok_step w e h)
+  exact this _ ⟨by simp [init], by simp [init]⟩
+
 /-- ✦ tie to the source -/
 theorem source_pinned : Gen.C33.extractErrors = [] ∧ Gen.C33.pins = Pins.C33 := by
   refine ⟨by decide, by decide⟩
